@@ -110,13 +110,19 @@ def blockPreconditionAfterDefs (p : Program) (s : Term Sub) (b : Term Blk) : Opt
 /-- `check_for_retargetable_block` -/
 def checkForRetargetableBlock (b : Term Blk) (trueConds : List Expression) : Option Tid :=
   if !b.term.defs.isEmpty then none else
-  match (b.term.jmps.map (·.term) : List Jmp) with
-  | [Jmp.Branch t] => some t
-  | [Jmp.CBranch tIf c, Jmp.Branch tElse] =>
-    trueConds.findSome? fun tc =>
-      if c = tc then some tIf
-      else if c = negateCondition tc then some tElse
-      else none
+  match b.term.jmps with
+  | [j] =>
+    match j.term with
+    | .Branch t => some t
+    | _ => none
+  | [j₁, j₂] =>
+    match j₁.term, j₂.term with
+    | .CBranch tIf c, .Branch tElse =>
+      trueConds.findSome? fun tc =>
+        if c = tc then some tIf
+        else if c = negateCondition tc then some tElse
+        else none
+    | _, _ => none
   | _ => none
 
 /-- the loop of `find_target_for_retargetable_jump`; `fuel` = number of blocks of the function + 1
